@@ -63,10 +63,12 @@ class Pool:
     """Feed JSON lines to N `vh <cmd>` children; one reply per line.  A child that dies or hangs
     is data: the in-flight case gets {"abort": ...} / {"timeout": true} and a new child starts."""
 
-    def __init__(self, binary, cmd, workers=None, timeout=20.0):
+    def __init__(self, binary, cmd, workers=None, timeout=20.0, max_failures=60):
         self.binary, self.cmd = binary, cmd
         self.workers = workers or max(2, NCPU - 2)
         self.timeout = timeout
+        self.max_failures = max_failures   # after this many hangs/crashes the remaining cases are skipped
+        self.failures = 0
 
     def _worker(self, items, results, lock, idx):
         proc = None
@@ -81,6 +83,9 @@ class Pool:
                     break
                 i = idx[0]
                 idx[0] += 1
+                if self.failures >= self.max_failures:
+                    results[i] = {"id": items[i].get("id"), "skipped": "too many hangs or crashes before this case"}
+                    continue
             if proc is None or proc.poll() is not None:
                 proc = start()
             line = json.dumps(items[i])
@@ -106,12 +111,16 @@ class Pool:
                 t.join(1)
                 results[i] = {"id": items[i].get("id"), "timeout": True}
                 proc = None
+                with lock:
+                    self.failures += 1
                 continue
             out = reply.get("line", "")
             if not out:
                 rc = proc.wait()
                 results[i] = {"id": items[i].get("id"), "abort": rc}
                 proc = None
+                with lock:
+                    self.failures += 1
                 continue
             try:
                 results[i] = json.loads(out)
@@ -280,6 +289,9 @@ class Report:
 
     def violation(self, what, payload):
         os.makedirs(os.path.join(WORK, "replays"), exist_ok=True)
+        if len(self.violations) >= 25:       # enough replay files; keep counting
+            self.violations.append((what, self.violations[-1][1]))
+            return
         self._nrep += 1
         path = os.path.join(WORK, "replays", "%s-%s-%d-%d.json" % (self.prop, self.tier, os.getpid(), self._nrep))
         with open(path, "w") as f:
